@@ -127,6 +127,9 @@ def sim_case(draw, schedulers, tier="quick", max_pipes=12, single_seg=False, for
         if draw(st.integers(0, 3)) == 0:
             # fractional pool RAM barely above one GB per CPU: the last container of a full pool gets a fractional leftover
             params["cpus_per_pool"], params["ram_gb_per_pool"] = draw(st.sampled_from([(5, 5.5), (6, 6.8), (10, 12.5), (5, 5.75)]))
+        elif draw(st.integers(0, 3)) == 0:
+            # CPU-rich pools: RAM runs out (possibly to exactly 0 GB) while CPUs are still free
+            params["cpus_per_pool"], params["ram_gb_per_pool"] = draw(st.sampled_from([(15, 20), (32, 100), (64, 8), (16, 4), (32, 10)]))
     arrivals = []
     burst_tick = draw(st.integers(0, max(nticks, 1)))
     for _ in range(npipes):
